@@ -21,10 +21,22 @@ impl<T> std::ops::Deref for Gc<T> {
     #[verifier::external_body]
     fn deref(&self) -> (r: &T) ensures *r == self.obj() { unimplemented!() }
 }
-pub struct Chunk { }
+// chunk.rs Chunk: the code and the parallel line table (line of the token that caused each byte)
+pub struct Chunk { pub code: Vec<u8>, pub lines: Vec<i32> }
+impl Chunk {
+    pub uninterp spec fn base(&self) -> int;      // the address of code[0] (code addresses are modelled by integers)
+    // chunk.rs code_offset: `ptr as usize - &self.code[0] as usize` — empty code or an address below the code is a host panic
+    #[verifier::external_body]
+    pub fn code_offset(&self, ptr: usize) -> (r: usize)
+        requires self.code@.len() > 0, ptr >= self.base()
+        ensures r == ptr - self.base()
+    { unimplemented!() }
+}
 pub struct ObjModule { }
 pub struct RefCell<T> { pub v: T }
-pub struct ObjFunction { pub chunk: Gc<Chunk> }
+pub struct ObjString { }
+impl ObjString { #[verifier::external_body] pub fn is_empty(&self) -> bool { unimplemented!() } }
+pub struct ObjFunction { pub chunk: Gc<Chunk>, pub name: Gc<ObjString> }
 // object.rs ObjClosure: the function it runs and the module whose globals it sees (upvalues: unit `upvalues`)
 pub struct ObjClosure { pub function: Gc<ObjFunction>, pub module: Gc<RefCell<ObjModule>> }
 // "address a lies inside the code of closure c's function" (chunk.code.as_ptr_range().contains(&a))
@@ -47,7 +59,25 @@ impl Value {
     fn none_value() -> (r: Value) ensures r == Value::nil() { unimplemented!() }
 }
 //@enum file=yarel/src/error.rs name=ErrorKind
-pub struct Error { pub kind: ErrorKind }
+// host-side error: its kind and (ghost) the source lines named by the trace entries added so far
+pub struct Error { pub kind: ErrorKind, pub ghost trace: Seq<i32> }
+// one trace entry under construction: which line it names
+pub struct TraceMsg { pub ghost line: i32 }
+impl TraceMsg {
+    #[verifier::external_body] pub fn new() -> TraceMsg { unimplemented!() }
+}
+// `write!(new_msg, "[{}, line {}] in ", *module.borrow(), chunk.lines[instruction])`
+#[verifier::external_body]
+fn trace_head(msg: &mut TraceMsg, module: Gc<RefCell<ObjModule>>, line: i32) ensures final(msg).line == line { unimplemented!() }
+// R22: the function-name part of the entry
+#[verifier::external_body]
+fn verif_write(msg: &mut TraceMsg) ensures final(msg).line == old(msg).line { unimplemented!() }
+impl Error {
+    #[verifier::external_body]
+    pub fn add_message(&mut self, message: &TraceMsg) ensures final(self).kind == old(self).kind, final(self).trace == old(self).trace.push(message.line) { unimplemented!() }
+    #[verifier::external_body]
+    pub fn clone(&self) -> (r: Error) ensures r == *self { unimplemented!() }
+}
 
 //@const file=yarel/src/common.rs name=FRAMES_MAX
 //@const file=yarel/src/common.rs name=LOCALS_MAX
@@ -268,6 +298,43 @@ impl Vm {
     //@  ensures final(self).fib.handlers_ok()
     //@  ensures @handler_runs_with_the_code_and_globals_of_its_own_frame old(self).fib.exc_handlers@.len() > 0 ==> final(self).view_ok()
     //@  ensures @caught_exception_leaves_no_failure_address (r is Ok && !final(self).handling_exception) ==> final(self).fib.error_ip is None
+    //@end
+
+    // the frame's saved address lies behind at least one instruction of its own code, whose line table is as long as
+    // the code (Chunk::write appends to both: unit compiler)
+    pub open spec fn frame_ok(f: CallFrame) -> bool {
+        let c = f.closure.obj().function.obj().chunk.obj();
+        c.code@.len() > 0 && c.lines@.len() == c.code@.len() && c.base() < f.ip <= c.base() + c.code@.len()
+    }
+    pub open spec fn line_of(f: CallFrame) -> i32 {
+        let c = f.closure.obj().function.obj().chunk.obj();
+        c.lines@[f.ip - c.base() - 1]
+    }
+    #[verifier::external_body]
+    fn reset_stack(&mut self) ensures final(self).ip == old(self).ip, final(self).code == old(self).code { unimplemented!() }
+
+    // The trace of an uncaught failure: one entry per active call, innermost first, each naming the line of the
+    // instruction that call was executing; building it never indexes outside a line table.
+    //@fn file=yarel/src/vm.rs path=Vm::runtime_error ret=r props=C17,C02
+    //@  subst "let mut new_msg = String::new();" => "let mut new_msg = TraceMsg::new();"
+    //@  subst "write!( new_msg, \"[{}, line {}] in \", *module.borrow(), chunk.lines[instruction] ) .expect(\"Unable to write error to buffer.\");" => "trace_head(&mut new_msg, module, chunk.lines[instruction]);"
+    //@  rewrite R5 R22
+    //@  subst "error.add_message(new_msg.as_str());" => "error.add_message(&new_msg);"
+    //@  requires old(self).fib.frames@.len() > 0, in_code(old(self).fib.frames@.last().closure, old(self).ip)
+    //@  requires forall|i: int| 0 <= i < old(self).fib.frames@.len() - 1 ==> Self::frame_ok(#[trigger] old(self).fib.frames@[i])
+    //@  requires forall|c: Gc<ObjClosure>, a: usize| #[trigger] in_code(c, a) ==> Self::frame_ok(CallFrame { closure: c, ip: a, slot_base: 0 })
+    //@  after_stmt "self.active_fiber_mut().store_error_ip_or(ip);" let ghost fs = self.fib.frames@; proof { assert(fs.drop_last() == old(self).fib.frames@.drop_last()); assert(Self::frame_ok(CallFrame { closure: fs.last().closure, ip: fs.last().ip, slot_base: 0 })); assert forall|i: int| 0 <= i < fs.len() - 1 implies #[trigger] fs[i] == old(self).fib.frames@[i] by { assert(fs[i] == fs.drop_last()[i]); assert(old(self).fib.frames@.drop_last()[i] == old(self).fib.frames@[i]); } assert forall|i: int| 0 <= i < fs.len() implies Self::frame_ok(#[trigger] fs[i]) by { if i < fs.len() - 1 { assert(fs[i] == old(self).fib.frames@[i]); } } }
+    //@  loop 0 invariant self.fib.frames@ == fs, fs.len() == old(self).fib.frames@.len(), __k0 <= fs.len(), forall|i: int| 0 <= i < fs.len() ==> Self::frame_ok(#[trigger] fs[i])
+    //@  loop 0 invariant error.kind == old(error).kind, error.trace.len() == old(error).trace.len() + (fs.len() - __k0), forall|i: int| __k0 <= i < fs.len() ==> error.trace[old(error).trace.len() + (fs.len() - 1 - i)] == Self::line_of(#[trigger] fs[i])
+    //@  loop 0 invariant forall|j: int| 0 <= j < old(error).trace.len() ==> error.trace[j] == old(error).trace[j]
+    //@  loop 0 invariant forall|i: int| 0 <= i < fs.len() - 1 ==> fs[i] == old(self).fib.frames@[i]
+    //@  loop 0 decreases __k0
+    //@  at loop0.start let ghost t0 = error.trace;
+    //@  at loop0.end proof { assert(error.trace == t0.push(Self::line_of(fs[__k0 as int]))); assert forall|i: int| __k0 <= i < fs.len() implies error.trace[old(error).trace.len() + (fs.len() - 1 - i)] == Self::line_of(#[trigger] fs[i]) by { if i > __k0 { assert(t0[old(error).trace.len() + (fs.len() - 1 - i)] == Self::line_of(fs[i])); } } }
+    //@  before_stmt "self.reset_stack();" proof { assert forall|i: int| 0 <= i < fs.len() - 1 implies error.trace[old(error).trace.len() + (fs.len() - 1 - i)] == Self::line_of(#[trigger] old(self).fib.frames@[i]) by { assert(fs[i] == old(self).fib.frames@[i]); assert(error.trace[old(error).trace.len() + (fs.len() - 1 - i)] == Self::line_of(fs[i])); } }
+    //@  ensures @one_trace_entry_per_active_call final(error).trace.len() == old(error).trace.len() + old(self).fib.frames@.len()
+    //@  ensures @outer_calls_are_listed_after_inner_ones_with_the_line_they_were_executing forall|i: int| 0 <= i < old(self).fib.frames@.len() - 1 ==> final(error).trace[old(error).trace.len() + (old(self).fib.frames@.len() - 1 - i)] == Self::line_of(#[trigger] old(self).fib.frames@[i])
+    //@  ensures final(error).kind == old(error).kind, r == *final(error)
     //@end
 
     // A failing built-in operation: the error becomes an exception object and is delivered like a thrown value; if
